@@ -107,6 +107,27 @@ inductive RwKind
   | calls       -- through the `read_` / `write_` wrapper: `accessLock`, driver function, `announceUpdate`
   deriving DecidableEq, Repr, Inhabited
 
+/-- the static facts about a parameter that the checks in front of the driver call look at -/
+structure ParInfo where
+  readonly : Bool          -- `pobj.readonly`
+  constant : Bool          -- `pobj.constant is not None`
+  hasRead : Bool           -- the class defines `read_<p>` (otherwise the generated `read_<p>` just returns the cached value)
+  deriving DecidableEq, Repr, Inhabited
+
+/-- `Dispatcher._getParameterValue` (`w = false`) / `_setParameterValue` (`w = true`) up to the driver call.  `look m p` is
+`secnode.get_module(m)` (ALL modules, also those that are not exported) followed by
+`moduleobj.parameters.get(moduleobj.accessiblename2attr.get(p))` (the exported name of a parameter; a command or an unknown
+name gives nothing): no module / no parameter → `NoSuchModule` / `NoSuchParameter`; a change of a constant or read-only
+parameter → `ReadOnly`; a read of a constant is answered directly; a read without `read_` function returns the cached value;
+everything else goes through the `read_` / `write_` wrapper. -/
+def rwKindOf (look : Mod → Par → Option ParInfo) (w : Bool) (m : Mod) (p : Par) : RwKind :=
+  match look m p with
+  | none => .refuse
+  | some i =>
+    if w then (if i.constant || i.readonly then .refuse else .calls)
+    else if i.constant then .plain
+    else if i.hasRead then .calls else .plain
+
 inductive Tid
   | h (c : Conn)
   | u (k : Nat)
@@ -133,7 +154,8 @@ structure Cfg where
   /-- `pobj.omit_unchanged_within` (from `update_unchanged`, the module's or the general `omit_unchanged_within`), in the
   unit of the time stamps: an unchanged value is announced again only when its time stamp is at least this much later -/
   omitWithin : Mod → Par → Nat := fun _ _ => 0
-  /-- static outcome of the checks of `_getParameterValue` (`w = false`) / `_setParameterValue` (`w = true`) -/
+  /-- static outcome of the checks of `_getParameterValue` (`w = false`) / `_setParameterValue` (`w = true`); the driver
+  instantiates it with `rwKindOf` over the parameter table of the real node -/
   rw : Bool → Mod → Par → RwKind := fun _ _ _ => .calls
 
 /-- program counter of a request thread -/
